@@ -1,6 +1,7 @@
 /-
-  Helper lemmas about the JSONB model (jsonb.go:22-154): JEntry bit fields, the offset arithmetic of
-  endOffset / entryOffLen (for ANY placement of HAS_OFF flags), totality of the parser.
+  Helper lemmas about the JSONB model (jsonb.go): JEntry bit fields, the offset arithmetic of
+  endOffset / entryOffLen and of the forward pass of fix 10 (for ANY placement of HAS_OFF flags; the two
+  agree on every entry array), totality of the parser, independence of the fuel.
 -/
 import PgVerif.Proofs.Numeric
 namespace PgVerif.Proofs
@@ -193,7 +194,266 @@ theorem entryOffLenPure_encE (idx base : Nat) (hidx : idx < lens.length) :
 
 end
 
+/-! ### the forward pass (fix 10): the end offsets are the prefix sums, whatever the flag pattern -/
+
+/-- the prefix sums `pre lens (a+1), …, pre lens (a+m)` -/
+def presFrom (lens : List Nat) (a m : Nat) : List Nat := (List.range' a m).map fun i => pre lens (i+1)
+
+theorem presFrom_length (lens : List Nat) (a m : Nat) : (presFrom lens a m).length = m := by
+  simp [presFrom]
+
+theorem getD_presFrom (lens : List Nat) (a m k : Nat) (h : k < m) :
+    (presFrom lens a m).getD k 0 = pre lens (a + k + 1) := by
+  simp [presFrom, List.getD, h]
+
+theorem encE_eq_range' (lens tys : List Nat) (flags : Nat → Bool) :
+    encE lens tys flags = (List.range' 0 lens.length).map fun i =>
+      if flags i then Spec.mkEntry (tys.getD i 0) true (pre lens (i+1)) else Spec.mkEntry (tys.getD i 0) false (lens.getD i 0) := by
+  unfold encE; rw [List.range_eq_range']
+
+theorem endsFrom_length (end_ : Nat) (es ends : List Nat) (h : endsFrom end_ es = some ends) :
+    ends.length = es.length := by
+  induction es generalizing end_ ends with
+  | nil => simp only [endsFrom, Option.some.injEq] at h; subst h; rfl
+  | cons je rest ih =>
+    simp only [endsFrom] at h
+    split at h
+    · cases hr : endsFrom (end_ + jeOffLen je) rest with
+      | none => rw [hr] at h; simp at h
+      | some t =>
+        rw [hr] at h
+        simp only [Option.map_some, Option.some.injEq] at h
+        subst h
+        simp [ih _ _ hr]
+    · split at h
+      · simp at h
+      · cases hr : endsFrom (jeOffLen je) rest with
+        | none => rw [hr] at h; simp at h
+        | some t =>
+          rw [hr] at h
+          simp only [Option.map_some, Option.some.injEq] at h
+          subst h
+          simp [ih _ _ hr]
+
+section
+variable (lens tys : List Nat) (flags : Nat → Bool)
+variable (hsmall : pre lens lens.length < 0x10000000) (hty : ∀ i, tys.getD i 0 < 8)
+include hsmall hty
+
+/-- the forward pass over the entries `a … a+m-1`, entered with the end offset of entry `a-1` -/
+theorem endsFrom_range' (m a : Nat) (h : a + m ≤ lens.length) :
+    endsFrom (pre lens a) ((List.range' a m).map fun i =>
+      if flags i then Spec.mkEntry (tys.getD i 0) true (pre lens (i+1)) else Spec.mkEntry (tys.getD i 0) false (lens.getD i 0)) =
+    some (presFrom lens a m) := by
+  induction m generalizing a with
+  | zero => rfl
+  | succ m ih =>
+    have ha : a < lens.length := by omega
+    have hoff := offLen_encE lens tys flags hsmall a ha
+    have hhas := hasOff_encE lens tys flags hsmall hty a ha
+    rw [getD_encE lens tys flags a ha] at hoff hhas
+    have hps := pre_succ lens a ha
+    have ihr := ih (a + 1) (by omega)
+    simp only [List.range'_succ, List.map_cons, endsFrom, presFrom, hoff, hhas]
+    cases hf : flags a with
+    | false =>
+      simp only [Bool.not_false, if_true, Bool.false_eq_true, if_false]
+      rw [← hps, ihr]; rfl
+    | true =>
+      simp only [Bool.not_true, Bool.false_eq_true, if_false, if_true]
+      rw [if_neg (by omega), ihr]; rfl
+
+/-- the forward pass accepts the entry array and returns the prefix sums -/
+theorem endsFrom_encE : endsFrom 0 (encE lens tys flags) = some (presFrom lens 0 lens.length) := by
+  rw [encE_eq_range']
+  have := endsFrom_range' lens tys flags hsmall hty lens.length 0 (by omega)
+  simpa [pre] using this
+
+end
+
+/-- entry `idx` of a container whose forward pass gave `ends` starts at `ends[idx-1]` (0 for the first)
+and is `ends[idx] - start` long: what the loops of parseJSONBArray / parseJSONBObject hand to decodeJEntry -/
+def spanAt (ends : List Nat) (idx : Nat) : Nat × Int :=
+  let start := if idx > 0 then ends.getD (idx-1) 0 else 0
+  (start, (ends.getD idx 0 : Int) - start)
+
+theorem spanAt_presFrom (lens : List Nat) (idx : Nat) (h : idx < lens.length) :
+    spanAt (presFrom lens 0 lens.length) idx = (pre lens idx, (lens.getD idx 0 : Int)) := by
+  unfold spanAt
+  have hps := pre_succ lens idx h
+  rw [getD_presFrom lens 0 _ idx h]
+  by_cases h0 : idx > 0
+  · rw [if_pos h0, getD_presFrom lens 0 _ (idx-1) (by omega)]
+    simp only [Nat.zero_add, show idx - 1 + 1 = idx by omega, hps]
+    congr 1; omega
+  · rw [if_neg h0]
+    have : idx = 0 := by omega
+    subst this
+    have hp0 : pre lens 0 = 0 := by simp [pre]
+    simp only [Nat.zero_add, hps, hp0]
+    congr 1
+
+/-! ### the forward pass computes what `endOffset` / `entryOffLen` compute, for EVERY entry array -/
+
+theorem sumFrom_snoc (es : List Nat) (a n : Nat) :
+    sumFrom es a (n+1) = sumFrom es a n + jeOffLen (es.getD (a+n) 0) := by
+  induction n generalizing a with
+  | zero => simp [sumFrom]
+  | succ n ih =>
+    rw [sumFrom, ih (a+1), sumFrom]
+    rw [show a + 1 + n = a + (n + 1) by omega]
+    omega
+
+/-- the value `endOffset` returns when its backward scan still has `k` positions to look at -/
+def scanOr (es : List Nat) (idx k : Nat) : Nat :=
+  match scan es idx k with
+  | some v => v
+  | none => sumFrom es 0 (idx+1)
+
+theorem endOffset_eq_scanOr (es : List Nat) (idx : Nat) : endOffset es idx = scanOr es idx (idx+1) := rfl
+
+theorem scanOr_zero (es : List Nat) (idx : Nat) : scanOr es idx 0 = sumFrom es 0 (idx+1) := rfl
+
+theorem scanOr_succ (es : List Nat) (idx k : Nat) :
+    scanOr es idx (k+1) = if jeHasOff (es.getD k 0) then jeOffLen (es.getD k 0) + sumFrom es (k+1) (idx - k)
+      else scanOr es idx k := by
+  unfold scanOr
+  rw [scan]
+  by_cases hf : jeHasOff (es.getD k 0) = true
+  · rw [if_pos hf, if_pos hf]
+  · rw [if_neg hf, if_neg hf]
+
+theorem scanOr_succ_idx (es : List Nat) (i k : Nat) (hk : k ≤ i + 1) :
+    scanOr es (i+1) k = scanOr es i k + jeOffLen (es.getD (i+1) 0) := by
+  induction k with
+  | zero =>
+    rw [scanOr_zero, scanOr_zero, sumFrom_snoc es 0 (i+1), Nat.zero_add]
+  | succ k ih =>
+    rw [scanOr_succ, scanOr_succ]
+    by_cases hf : jeHasOff (es.getD k 0) = true
+    · rw [if_pos hf, if_pos hf, show i + 1 - k = (i - k) + 1 by omega, sumFrom_snoc,
+        show k + 1 + (i - k) = i + 1 by omega]
+      omega
+    · rw [if_neg hf, if_neg hf]
+      exact ih (by omega)
+
+theorem endOffset_zero (es : List Nat) : endOffset es 0 = jeOffLen (es.getD 0 0) := by
+  rw [endOffset_eq_scanOr, scanOr_succ, scanOr_zero]
+  simp [sumFrom]
+
+theorem endOffset_succ (es : List Nat) (i : Nat) :
+    endOffset es (i+1) = if jeHasOff (es.getD (i+1) 0) then jeOffLen (es.getD (i+1) 0)
+      else endOffset es i + jeOffLen (es.getD (i+1) 0) := by
+  rw [endOffset_eq_scanOr, scanOr_succ, scanOr_succ_idx es i (i+1) (by omega), ← endOffset_eq_scanOr]
+  simp [sumFrom]
+
+/-- one step of the forward pass -/
+theorem endsFrom_cons (e0 je : Nat) (rest ends : List Nat) (h : endsFrom e0 (je :: rest) = some ends) :
+    ∃ t, ends = (if jeHasOff je then jeOffLen je else e0 + jeOffLen je) :: t ∧
+      endsFrom (if jeHasOff je then jeOffLen je else e0 + jeOffLen je) rest = some t ∧
+      e0 ≤ (if jeHasOff je then jeOffLen je else e0 + jeOffLen je) := by
+  simp only [endsFrom] at h
+  cases hf : jeHasOff je with
+  | false =>
+    rw [hf] at h
+    simp only [Bool.not_false, if_true] at h
+    cases hr : endsFrom (e0 + jeOffLen je) rest with
+    | none => rw [hr] at h; simp at h
+    | some t =>
+      rw [hr] at h
+      simp only [Option.map_some, Option.some.injEq] at h
+      exact ⟨t, by simp [← h], by simpa using hr, by simp⟩
+  | true =>
+    rw [hf] at h
+    simp only [Bool.not_true, Bool.false_eq_true, if_false] at h
+    split at h
+    · simp at h
+    · rename_i hge
+      cases hr : endsFrom (jeOffLen je) rest with
+      | none => rw [hr] at h; simp at h
+      | some t =>
+        rw [hr] at h
+        simp only [Option.map_some, Option.some.injEq] at h
+        exact ⟨t, by simp [← h], by simpa using hr, by simp; omega⟩
+
+/-- the recurrence of the forward pass, by index: `ends[i] = v_i` where HAS_OFF is set, `ends[i-1] + v_i` elsewhere -/
+theorem endsFrom_getD (e0 : Nat) (es ends : List Nat) (h : endsFrom e0 es = some ends) (i : Nat) (hi : i < es.length) :
+    ends.getD i 0 = if jeHasOff (es.getD i 0) then jeOffLen (es.getD i 0)
+      else (if i > 0 then ends.getD (i-1) 0 else e0) + jeOffLen (es.getD i 0) := by
+  induction es generalizing e0 ends i with
+  | nil => simp at hi
+  | cons je rest ih =>
+    obtain ⟨t, rfl, ht, _⟩ := endsFrom_cons e0 je rest ends h
+    cases i with
+    | zero => simp
+    | succ i =>
+      have := ih _ t ht i (by simpa using hi)
+      simp only [List.getD_cons_succ, Nat.add_sub_cancel]
+      rw [this]
+      cases i with
+      | zero => simp
+      | succ i => simp
+
+/-- accepted end offsets never decrease (fix 08's check, now part of the forward pass) -/
+theorem endsFrom_mono (e0 : Nat) (es ends : List Nat) (h : endsFrom e0 es = some ends) (i : Nat) (hi : i < es.length) :
+    (if i > 0 then ends.getD (i-1) 0 else e0) ≤ ends.getD i 0 := by
+  induction es generalizing e0 ends i with
+  | nil => simp at hi
+  | cons je rest ih =>
+    obtain ⟨t, rfl, ht, hle⟩ := endsFrom_cons e0 je rest ends h
+    cases i with
+    | zero => simpa using hle
+    | succ i =>
+      have := ih _ t ht i (by simpa using hi)
+      cases i with
+      | zero => simpa using this
+      | succ i => simpa using this
+
+/-- consecutive, non-overlapping spans: every length is ≥ 0 and entry `idx+1` starts where entry `idx` ends -/
+theorem spanAt_tiling (es ends : List Nat) (h : endsFrom 0 es = some ends) (idx : Nat) (hidx : idx < es.length) :
+    0 ≤ (spanAt ends idx).2 ∧ (spanAt ends (idx+1)).1 = (spanAt ends idx).1 + (spanAt ends idx).2.toNat := by
+  have hm := endsFrom_mono 0 es ends h idx hidx
+  unfold spanAt
+  simp only [Nat.add_sub_cancel, show idx + 1 > 0 from Nat.succ_pos idx, if_true]
+  constructor
+  · omega
+  · omega
+
+/-- Fix 10 changes no offset: for EVERY entry array the forward pass accepts (hostile ones included, any
+placement of HAS_OFF flags), the end offset it computes for entry `idx` is the one `endOffset` finds by
+scanning back to the nearest HAS_OFF entry and summing forward. -/
+theorem endsFrom_eq_endOffset (es ends : List Nat) (h : endsFrom 0 es = some ends) (idx : Nat) (hidx : idx < es.length) :
+    ends.getD idx 0 = endOffset es idx := by
+  induction idx with
+  | zero =>
+    rw [endsFrom_getD 0 es ends h 0 hidx, endOffset_zero]
+    simp
+  | succ i ih =>
+    rw [endsFrom_getD 0 es ends h (i+1) hidx, endOffset_succ, ← ih (by omega)]
+    simp
+
+/-- … and the (start, length) handed to decodeJEntry for entry `idx` is what `entryOffLen` returned -/
+theorem spanAt_eq_entryOffLen (es ends : List Nat) (h : endsFrom 0 es = some ends) (idx : Nat) (hidx : idx < es.length) :
+    spanAt ends idx = entryOffLenPure es idx 0 := by
+  have hrec := endsFrom_getD 0 es ends h idx hidx
+  have hstart : (if idx > 0 then ends.getD (idx-1) 0 else 0) = (if idx > 0 then endOffset es (idx-1) else 0) := by
+    by_cases h0 : idx > 0
+    · rw [if_pos h0, if_pos h0, endsFrom_eq_endOffset es ends h (idx-1) (by omega)]
+    · rw [if_neg h0, if_neg h0]
+  unfold spanAt entryOffLenPure
+  simp only [Nat.zero_add]
+  rw [← hstart, hrec]
+  by_cases hf : jeHasOff (es.getD idx 0) = true
+  · simp only [hf, if_true]
+  · simp only [hf, Bool.false_eq_true, if_false]
+    congr 1
+    omega
+
 /-! ### totality: no index, no slice expression of the parser can fail, whatever the bytes -/
+
+theorem sliceL_eq (data : Bytes) (lo hi : Nat) : sliceL data data.length lo hi = slice data lo hi := by
+  unfold sliceL slice
+  rw [List.drop_take]
 
 theorem align4_ge (off : Nat) : off ≤ align4 off := by
   unfold align4
@@ -201,16 +461,26 @@ theorem align4_ge (off : Nat) : off ≤ align4 off := by
   simp only [show (2 : Nat) ^ 2 - 1 = 3 from rfl, show (2 : Nat) ^ 2 = 4 from rfl] at this
   rw [this]; omega
 
-theorem readEntries_total (data : Bytes) (n i : Nat) (h : 4 + (i + n) * 4 ≤ data.length) :
-    ∃ es, readEntries data n i = .ok es ∧ es.length = n := by
-  induction n generalizing i with
+theorem drop3_nonempty (d : Bytes) (h : 4 ≤ d.length) : (d.drop 3).isEmpty = false := by
+  cases hd : d.drop 3 with
+  | nil =>
+    have := congrArg List.length hd
+    simp only [List.length_drop, List.length_nil] at this
+    omega
+  | cons x t => rfl
+
+theorem readEntries_succ (n : Nat) (d : Bytes) (h : 4 ≤ d.length) :
+    readEntries (n+1) d = (readEntries n (d.drop 4) >>= fun rest => pure (rd 4 d :: rest)) := by
+  rw [readEntries, drop3_nonempty d h]; rfl
+
+theorem readEntries_total (n : Nat) (d : Bytes) (h : n * 4 ≤ d.length) :
+    ∃ es, readEntries n d = .ok es ∧ es.length = n := by
+  induction n generalizing d with
   | zero => exact ⟨[], rfl, rfl⟩
   | succ n ih =>
-    obtain ⟨es, hes, hl⟩ := ih (i + 1) (by omega)
-    refine ⟨rd 4 (data.drop (4 + i * 4)) :: es, ?_, by simp [hl]⟩
-    unfold readEntries
-    rw [uN_ok 4 data (4 + i * 4) (by omega)]
-    simp only [ok_bind, hes, pure_eq_ok]
+    obtain ⟨es, hes, hl⟩ := ih (d.drop 4) (by simp only [List.length_drop]; omega)
+    refine ⟨rd 4 d :: es, ?_, by simp [hl]⟩
+    rw [readEntries_succ n d (by omega), hes]; rfl
 
 theorem entryOffLen_ok (es : List Nat) (idx base : Nat) (h : idx < es.length) :
     entryOffLen es idx base = .ok (entryOffLenPure es idx base) := by
@@ -222,8 +492,8 @@ theorem decodeJEntry_total (rec : Bytes → M JV) (data : Bytes) (off : Nat) (le
     (hoff : 0 < off) (hrec : ∀ d : Bytes, d.length < data.length → ∃ r, rec d = .ok r) :
     ∃ r, decodeJEntry rec data off length je = .ok r := by
   have hal := align4_ge off
-  unfold decodeJEntry
-  simp only [pure_eq_ok]
+  unfold decodeJEntry decodeJEntryN
+  simp only [sliceL_eq, pure_eq_ok]
   split
   · split
     · rename_i hg
@@ -261,57 +531,85 @@ theorem getEntry_ok (entries : List Nat) (i : Nat) (h : i < entries.length) :
     getEntry entries i = .ok entries[i] := by
   unfold getEntry; rw [List.getElem?_eq_getElem h]; rfl
 
-theorem parseArrayLoop_total (rec : Bytes → M JV) (data : Bytes) (entries : List Nat) (dataStart : Nat)
-    (hds : 0 < dataStart) (hrec : ∀ d : Bytes, d.length < data.length → ∃ r, rec d = .ok r)
-    (n i : Nat) (h : i + n ≤ entries.length) :
-    ∃ xs, parseArrayLoop rec data entries dataStart n i = .ok xs := by
-  induction n generalizing i with
-  | zero => exact ⟨[], rfl⟩
-  | succ n ih =>
-    obtain ⟨rest, hrest⟩ := ih (i + 1) (by omega)
-    unfold parseArrayLoop
-    rw [entryOffLen_ok entries i 0 (by omega)]
-    simp only [ok_bind]
-    rw [getEntry_ok entries i (by omega)]
-    simp only [ok_bind]
-    obtain ⟨v, hv⟩ := decodeJEntry_total rec data (dataStart + (entryOffLenPure entries i 0).1)
-      (entryOffLenPure entries i 0).2 entries[i] (by omega) hrec
-    rw [hv]
-    simp only [ok_bind, hrest, pure_eq_ok]
-    exact ⟨_, rfl⟩
+theorem dropM_ok (xs : List Nat) (n : Nat) (h : n ≤ xs.length) : dropM xs n = .ok (xs.drop n) := by
+  unfold dropM; rw [if_neg (by omega)]; rfl
 
-theorem parseObjectLoop_total (rec : Bytes → M JV) (data : Bytes) (entries : List Nat) (dataStart count : Nat)
+theorem parseArrayLoop_zero (rec : Bytes → M JV) (data : Bytes) (dataStart off : Nat) (es ends : List Nat) :
+    parseArrayLoop rec data data.length dataStart 0 off es ends = .ok [] := by
+  unfold parseArrayLoop; rfl
+
+theorem parseArrayLoop_cons (rec : Bytes → M JV) (data : Bytes) (dataStart n off je e : Nat) (es ends : List Nat) :
+    parseArrayLoop rec data data.length dataStart (n+1) off (je :: es) (e :: ends) =
+      (decodeJEntry rec data (dataStart + off) ((e : Int) - off) je >>= fun v =>
+        parseArrayLoop rec data data.length dataStart n e es ends >>= fun rest => pure (v :: rest)) := by
+  rw [parseArrayLoop]; rfl
+
+theorem parseObjectLoop_zero (rec : Bytes → M JV) (data : Bytes) (dataStart kOff vOff : Nat) (kEnds vals valEnds : List Nat) :
+    parseObjectLoop rec data data.length dataStart 0 kOff vOff kEnds vals valEnds = .ok [] := by
+  unfold parseObjectLoop; rfl
+
+theorem parseObjectLoop_cons (rec : Bytes → M JV) (data : Bytes) (dataStart n kOff vOff ke je ve : Nat)
+    (kEnds vals valEnds : List Nat) :
+    parseObjectLoop rec data data.length dataStart (n+1) kOff vOff (ke :: kEnds) (je :: vals) (ve :: valEnds) =
+      (objKey data dataStart kOff ((ke : Int) - kOff) >>= fun key =>
+        decodeJEntry rec data (dataStart + vOff) ((ve : Int) - vOff) je >>= fun v =>
+          parseObjectLoop rec data data.length dataStart n ke ve kEnds vals valEnds >>= fun rest => pure ((key, v) :: rest)) := by
+  rw [parseObjectLoop]; rfl
+
+theorem objKey_total (data : Bytes) (dataStart kOff : Nat) (kLen : Int) : ∃ key, objKey data dataStart kOff kLen = .ok key := by
+  unfold objKey objKeyN
+  rw [sliceL_eq]
+  split
+  · rename_i hg
+    rw [slice_ok _ _ _ hg.2 (by omega)]; exact ⟨_, rfl⟩
+  · exact ⟨_, rfl⟩
+
+theorem parseArrayLoop_total (rec : Bytes → M JV) (data : Bytes) (dataStart : Nat)
     (hds : 0 < dataStart) (hrec : ∀ d : Bytes, d.length < data.length → ∃ r, rec d = .ok r)
-    (n i : Nat) (h : count + i + n ≤ entries.length) :
-    ∃ kvs, parseObjectLoop rec data entries dataStart count n i = .ok kvs := by
-  induction n generalizing i with
-  | zero => exact ⟨[], rfl⟩
+    (n off : Nat) (es ends : List Nat) (h1 : n ≤ es.length) (h2 : n ≤ ends.length) :
+    ∃ xs, parseArrayLoop rec data data.length dataStart n off es ends = .ok xs := by
+  induction n generalizing off es ends with
+  | zero => exact ⟨[], parseArrayLoop_zero ..⟩
   | succ n ih =>
-    obtain ⟨rest, hrest⟩ := ih (i + 1) (by omega)
-    unfold parseObjectLoop
-    rw [entryOffLen_ok entries i 0 (by omega)]
-    simp only [ok_bind]
-    have hkey : ∃ key, (if (entryOffLenPure entries i 0).2 ≥ 0 ∧
-          dataStart + (entryOffLenPure entries i 0).1 + (entryOffLenPure entries i 0).2.toNat ≤ data.length then
-        slice data (dataStart + (entryOffLenPure entries i 0).1)
-          (dataStart + (entryOffLenPure entries i 0).1 + (entryOffLenPure entries i 0).2.toNat)
-        else pure [] : M Bytes) = .ok key := by
-      split
-      · rename_i hg
-        rw [slice_ok _ _ _ hg.2 (by omega)]; exact ⟨_, rfl⟩
-      · exact ⟨_, rfl⟩
-    obtain ⟨key, hkey⟩ := hkey
-    rw [hkey]
-    simp only [ok_bind]
-    rw [entryOffLen_ok entries (count + i) 0 (by omega)]
-    simp only [ok_bind]
-    rw [getEntry_ok entries (count + i) (by omega)]
-    simp only [ok_bind]
-    obtain ⟨v, hv⟩ := decodeJEntry_total rec data (dataStart + (entryOffLenPure entries (count + i) 0).1)
-      (entryOffLenPure entries (count + i) 0).2 entries[count + i] (by omega) hrec
-    rw [hv]
-    simp only [ok_bind, hrest, pure_eq_ok]
-    exact ⟨_, rfl⟩
+    match es, ends, h1, h2 with
+    | je :: es, e :: ends, h1, h2 =>
+      obtain ⟨v, hv⟩ := decodeJEntry_total rec data (dataStart + off) ((e : Int) - off) je (by omega) hrec
+      obtain ⟨rest, hrest⟩ := ih e es ends (by simpa using h1) (by simpa using h2)
+      refine ⟨v :: rest, ?_⟩
+      rw [parseArrayLoop_cons, hv]
+      simp only [ok_bind, hrest, pure_eq_ok]
+    | [], _, h1, _ => simp at h1
+    | _ :: _, [], _, h2 => simp at h2
+
+theorem parseObjectLoop_total (rec : Bytes → M JV) (data : Bytes) (dataStart : Nat)
+    (hds : 0 < dataStart) (hrec : ∀ d : Bytes, d.length < data.length → ∃ r, rec d = .ok r)
+    (n kOff vOff : Nat) (kEnds vals valEnds : List Nat)
+    (h1 : n ≤ kEnds.length) (h2 : n ≤ vals.length) (h3 : n ≤ valEnds.length) :
+    ∃ kvs, parseObjectLoop rec data data.length dataStart n kOff vOff kEnds vals valEnds = .ok kvs := by
+  induction n generalizing kOff vOff kEnds vals valEnds with
+  | zero => exact ⟨[], parseObjectLoop_zero ..⟩
+  | succ n ih =>
+    match kEnds, vals, valEnds, h1, h2, h3 with
+    | ke :: kEnds, je :: vals, ve :: valEnds, h1, h2, h3 =>
+      obtain ⟨key, hkey⟩ := objKey_total data dataStart kOff ((ke : Int) - kOff)
+      obtain ⟨v, hv⟩ := decodeJEntry_total rec data (dataStart + vOff) ((ve : Int) - vOff) je (by omega) hrec
+      obtain ⟨rest, hrest⟩ := ih ke ve kEnds vals valEnds (by simpa using h1) (by simpa using h2) (by simpa using h3)
+      refine ⟨(key, v) :: rest, ?_⟩
+      rw [parseObjectLoop_cons, hkey]
+      simp only [ok_bind, hv, hrest, pure_eq_ok]
+    | [], _, _, h1, _, _ => simp at h1
+    | _ :: _, [], _, _, h2, _ => simp at h2
+    | _ :: _, _ :: _, [], _, _, h3 => simp at h3
+
+theorem parseObject_total (rec : Bytes → M JV) (data : Bytes) (entries ends : List Nat) (dataStart count : Nat)
+    (hds : 0 < dataStart) (hrec : ∀ d : Bytes, d.length < data.length → ∃ r, rec d = .ok r)
+    (hc : 0 < count) (he : entries.length = count * 2) (hn : ends.length = count * 2) :
+    ∃ kvs, parseObject rec data data.length entries ends dataStart count = .ok kvs := by
+  unfold parseObject
+  rw [dropM_ok entries count (by omega), dropM_ok ends count (by omega), getEntry_ok ends (count - 1) (by omega)]
+  simp only [ok_bind]
+  exact parseObjectLoop_total rec data dataStart hds hrec count 0 _ ends _ _ (by omega)
+    (by simp only [List.length_drop]; omega) (by simp only [List.length_drop]; omega)
 
 /-- the body of ParseJSONB cannot fault if the recursive call cannot fault on strictly shorter input -/
 theorem parseContainer_total (rec : Bytes → M JV) (data : Bytes)
@@ -320,10 +618,10 @@ theorem parseContainer_total (rec : Bytes → M JV) (data : Bytes)
   unfold parseContainer
   by_cases hl : data.length < 4
   · simp [hl]
-  · simp (disch := omega) only [hl, if_false, uN_ok, ok_bind, pure_eq_ok]
+  · simp (disch := omega) only [hl, if_false, uN_ok, sliceFrom_ok, ok_bind, pure_eq_ok]
     generalize rd 4 (List.drop 0 data) = header
     generalize hcnt : header &&& 0x0FFFFFFF = count
-    by_cases hbad : ((!header &&& 0x20000000 != 0 && !header &&& 0x40000000 != 0) || decide (count > 10000)) = true
+    by_cases hbad : ((!header &&& 0x20000000 != 0 && !header &&& 0x40000000 != 0)) = true
     · rw [if_pos hbad]; exact ⟨_, rfl⟩
     · rw [if_neg hbad]
       by_cases hc0 : (count == 0) = true
@@ -335,27 +633,32 @@ theorem parseContainer_total (rec : Bytes → M JV) (data : Bytes)
           split
           · exact ⟨_, rfl⟩
           · rename_i hsz
-            obtain ⟨es, hes, hesl⟩ := readEntries_total data (count * 2) 0 (by omega)
+            obtain ⟨es, hes, hesl⟩ := readEntries_total (count * 2) (data.drop 4)
+              (by simp only [List.length_drop]; omega)
             rw [hes]
             simp only [ok_bind]
-            split
-            · exact ⟨_, rfl⟩
-            · obtain ⟨kvs, hk⟩ := parseObjectLoop_total rec data es
-                (4 + count * 2 * 4) count (by omega) hrec count 0 (by omega)
-              rw [hk]; exact ⟨_, rfl⟩
+            cases hends : endsFrom 0 es with
+            | none => exact ⟨_, rfl⟩
+            | some ends =>
+              have hel := endsFrom_length 0 es ends hends
+              obtain ⟨kvs, hk⟩ := parseObject_total rec data es ends
+                (4 + count * 2 * 4) count (by omega) hrec (by omega) hesl (by omega)
+              simp only [hk, ok_bind]; exact ⟨_, rfl⟩
         · simp only [hobj, Bool.false_eq_true, if_false]
           split
           · exact ⟨_, rfl⟩
           · rename_i hsz
-            obtain ⟨es, hes, hesl⟩ := readEntries_total data count 0 (by omega)
+            obtain ⟨es, hes, hesl⟩ := readEntries_total count (data.drop 4)
+              (by simp only [List.length_drop]; omega)
             rw [hes]
             simp only [ok_bind]
-            split
-            · exact ⟨_, rfl⟩
-            · obtain ⟨xs, hx⟩ := parseArrayLoop_total rec data es
-                (4 + count * 4) (by omega) hrec count 0 (by omega)
-              rw [hx]
-              simp only [ok_bind]
+            cases hends : endsFrom 0 es with
+            | none => exact ⟨_, rfl⟩
+            | some ends =>
+              have hel := endsFrom_length 0 es ends hends
+              obtain ⟨xs, hx⟩ := parseArrayLoop_total rec data
+                (4 + count * 4) (by omega) hrec count 0 es ends (by omega) (by omega)
+              simp only [hx, ok_bind]
               split
               · split <;> exact ⟨_, rfl⟩
               · exact ⟨_, rfl⟩
@@ -379,7 +682,8 @@ theorem decodeJEntry_congr (rec1 rec2 : Bytes → M JV) (data : Bytes) (off : Na
     (hoff : 0 < off) (h : ∀ d : Bytes, d.length < data.length → rec1 d = rec2 d) :
     decodeJEntry rec1 data off length je = decodeJEntry rec2 data off length je := by
   have hal := align4_ge off
-  unfold decodeJEntry
+  unfold decodeJEntry decodeJEntryN
+  simp only [sliceL_eq]
   by_cases t0 : ((je &&& 0x70000000) == 0x00000000) = true
   · simp only [t0, if_true]
   · by_cases t1 : ((je &&& 0x70000000) == 0x10000000) = true
@@ -398,33 +702,48 @@ theorem decodeJEntry_congr (rec1 rec2 : Bytes → M JV) (data : Bytes) (off : Na
         · rw [if_neg hg, if_neg hg]
       · simp only [t0, t1, t5, Bool.false_eq_true, if_false]
 
-theorem parseArrayLoop_congr (rec1 rec2 : Bytes → M JV) (data : Bytes) (entries : List Nat) (dataStart : Nat)
-    (hds : 0 < dataStart) (h : ∀ d : Bytes, d.length < data.length → rec1 d = rec2 d) (n i : Nat) :
-    parseArrayLoop rec1 data entries dataStart n i = parseArrayLoop rec2 data entries dataStart n i := by
-  induction n generalizing i with
-  | zero => rfl
+theorem parseArrayLoop_congr (rec1 rec2 : Bytes → M JV) (data : Bytes) (dataStart : Nat)
+    (hds : 0 < dataStart) (h : ∀ d : Bytes, d.length < data.length → rec1 d = rec2 d)
+    (n off : Nat) (es ends : List Nat) :
+    parseArrayLoop rec1 data data.length dataStart n off es ends = parseArrayLoop rec2 data data.length dataStart n off es ends := by
+  induction n generalizing off es ends with
+  | zero => rw [parseArrayLoop_zero, parseArrayLoop_zero]
   | succ n ih =>
-    unfold parseArrayLoop
-    apply bind_congr'; intro p
-    apply bind_congr'; intro je
-    rw [decodeJEntry_congr rec1 rec2 data _ _ je (by omega) h]
-    apply bind_congr'; intro v
-    rw [ih]
+    match es, ends with
+    | je :: es, e :: ends =>
+      rw [parseArrayLoop_cons, parseArrayLoop_cons, decodeJEntry_congr rec1 rec2 data _ _ je (by omega) h]
+      apply bind_congr'; intro v
+      rw [ih]
+    | [], _ => simp [parseArrayLoop]
+    | _ :: _, [] => simp [parseArrayLoop]
 
-theorem parseObjectLoop_congr (rec1 rec2 : Bytes → M JV) (data : Bytes) (entries : List Nat) (dataStart count : Nat)
-    (hds : 0 < dataStart) (h : ∀ d : Bytes, d.length < data.length → rec1 d = rec2 d) (n i : Nat) :
-    parseObjectLoop rec1 data entries dataStart count n i = parseObjectLoop rec2 data entries dataStart count n i := by
-  induction n generalizing i with
-  | zero => rfl
+theorem parseObjectLoop_congr (rec1 rec2 : Bytes → M JV) (data : Bytes) (dataStart : Nat)
+    (hds : 0 < dataStart) (h : ∀ d : Bytes, d.length < data.length → rec1 d = rec2 d)
+    (n kOff vOff : Nat) (kEnds vals valEnds : List Nat) :
+    parseObjectLoop rec1 data data.length dataStart n kOff vOff kEnds vals valEnds =
+      parseObjectLoop rec2 data data.length dataStart n kOff vOff kEnds vals valEnds := by
+  induction n generalizing kOff vOff kEnds vals valEnds with
+  | zero => rw [parseObjectLoop_zero, parseObjectLoop_zero]
   | succ n ih =>
-    unfold parseObjectLoop
-    apply bind_congr'; intro p
-    apply bind_congr'; intro key
-    apply bind_congr'; intro q
-    apply bind_congr'; intro je
-    rw [decodeJEntry_congr rec1 rec2 data _ _ je (by omega) h]
-    apply bind_congr'; intro v
-    rw [ih]
+    match kEnds, vals, valEnds with
+    | ke :: kEnds, je :: vals, ve :: valEnds =>
+      rw [parseObjectLoop_cons, parseObjectLoop_cons]
+      apply bind_congr'; intro key
+      rw [decodeJEntry_congr rec1 rec2 data _ _ je (by omega) h]
+      apply bind_congr'; intro v
+      rw [ih]
+    | [], _, _ => simp [parseObjectLoop]
+    | _ :: _, [], _ => simp [parseObjectLoop]
+    | _ :: _, _ :: _, [] => simp [parseObjectLoop]
+
+theorem parseObject_congr (rec1 rec2 : Bytes → M JV) (data : Bytes) (entries ends : List Nat) (dataStart count : Nat)
+    (hds : 0 < dataStart) (h : ∀ d : Bytes, d.length < data.length → rec1 d = rec2 d) :
+    parseObject rec1 data data.length entries ends dataStart count = parseObject rec2 data data.length entries ends dataStart count := by
+  unfold parseObject
+  apply bind_congr'; intro vals
+  apply bind_congr'; intro valEnds
+  apply bind_congr'; intro vOff
+  exact parseObjectLoop_congr rec1 rec2 data dataStart hds h ..
 
 theorem parseContainer_congr (rec1 rec2 : Bytes → M JV) (data : Bytes)
     (h : ∀ d : Bytes, d.length < data.length → rec1 d = rec2 d) :
@@ -435,7 +754,7 @@ theorem parseContainer_congr (rec1 rec2 : Bytes → M JV) (data : Bytes)
   · simp only [hl, if_false]
     apply bind_congr'; intro header
     generalize hcnt : header &&& 0x0FFFFFFF = count
-    by_cases hbad : ((!header &&& 0x20000000 != 0 && !header &&& 0x40000000 != 0) || decide (count > 10000)) = true
+    by_cases hbad : ((!header &&& 0x20000000 != 0 && !header &&& 0x40000000 != 0)) = true
     · simp only [hbad, if_true]
     · rw [if_neg hbad, if_neg hbad]
       by_cases hc0 : (count == 0) = true
@@ -447,14 +766,24 @@ theorem parseContainer_congr (rec1 rec2 : Bytes → M JV) (data : Bytes)
           by_cases hsz : 4 + count * 2 * 4 > data.length
           · simp only [hsz, if_true]
           · simp only [hsz, if_false]
+            apply bind_congr'; intro d4
             apply bind_congr'; intro entries
-            rw [parseObjectLoop_congr rec1 rec2 data entries _ count (by omega) h]
+            cases endsFrom 0 entries with
+            | none => rfl
+            | some ends =>
+              simp only []
+              rw [parseObject_congr rec1 rec2 data entries ends _ count (by omega) h]
         · simp only [hobj, Bool.false_eq_true, if_false]
           by_cases hsz : 4 + count * 4 > data.length
           · simp only [hsz, if_true]
           · simp only [hsz, if_false]
+            apply bind_congr'; intro d4
             apply bind_congr'; intro entries
-            rw [parseArrayLoop_congr rec1 rec2 data entries _ (by omega) h]
+            cases endsFrom 0 entries with
+            | none => rfl
+            | some ends =>
+              simp only []
+              rw [parseArrayLoop_congr rec1 rec2 data _ (by omega) h]
 
 /-- any two amounts of fuel above the input length give the same result -/
 theorem parseJSONBFuel_fuel (f1 : Nat) : ∀ (f2 : Nat) (data : Bytes), data.length < f1 → data.length < f2 →
